@@ -111,7 +111,7 @@ type namedReader struct {
 func (n namedReader) Name() string { return n.name }
 
 func c15Opts(r *mon.RNG, i int) *gram.GenOpts {
-	prof := []int{gram.ProfStateful, gram.ProfDefault, gram.ProfLower}[i%3]
+	prof := []int{gram.ProfStateful, gram.ProfDefault, gram.ProfLower, gram.ProfScanCfg}[i%4]
 	return &gram.GenOpts{Profile: prof, MaxProds: 4, Budget: 10 + r.Intn(12), Depth: 2 + r.Intn(2), TokKinds: i%2 == 0, Unions: true,
 		SharePrefix: 5, CaptureBias: 5, SubBias: 3, AllowBang: true, ForcePos: i%2 == 1}
 }
@@ -128,14 +128,106 @@ func sameStream(a, b []lexer.Token) string {
 	return ""
 }
 
+// c15PRoot is a root grammar implemented by user code (Parseable): it
+// consumes "(" Ident* ")" and leaves the rest.
+type c15PRoot struct {
+	Items []string
+}
+
+func (p *c15PRoot) Parse(lex *lexer.PeekingLexer) error {
+	if lex.Peek().Value != "(" {
+		return participle.NextMatch
+	}
+	lex.Next()
+	for !lex.Peek().EOF() && lex.Peek().Value != ")" {
+		p.Items = append(p.Items, lex.Next().Value)
+	}
+	if lex.Peek().EOF() {
+		return fmt.Errorf("unterminated list")
+	}
+	lex.Next()
+	return nil
+}
+
+// c15ParseableRoot checks the caller's lexer position after ParseFromLexer
+// with trailing input allowed for a root that implements Parseable.
+func c15ParseableRoot(c *mon.Child) {
+	p, err := participle.Build[c15PRoot](gram.LexerOptions(gram.ProfStateful)...)
+	if err != nil {
+		c.Violation("", "proot", "Parseable root grammar does not build: "+err.Error(), nil)
+		return
+	}
+	sym := p.Lexer().Symbols()
+	el := []lexer.TokenType{sym["WS"], sym["Comment"]}
+	r := c.RNG("proot")
+	for i := 0; i < c.N(300, 2000); i++ {
+		key := fmt.Sprintf("proot%d", i)
+		if !c.Want(key) {
+			continue
+		}
+		n := r.Intn(5)
+		var items []string
+		for j := 0; j < n; j++ {
+			items = append(items, r.Pick("a", "b", "1", "select"))
+		}
+		var rest []string
+		for j := r.Intn(4); j > 0; j-- {
+			rest = append(rest, r.Pick("x", "(", "2", ")"))
+		}
+		toks := append(append([]string{"("}, items...), ")")
+		text := gram.Render(gram.ProfStateful, append(toks, rest...), 2+i%5, r.Fork("render", i))
+		c.Begin(key, fmt.Sprintf("Parseable root <- %q", text))
+		c.Eval(1)
+		L, lerr := p.Lex("", strings.NewReader(text))
+		if lerr != nil {
+			c.End(key)
+			continue
+		}
+		pl, _ := lexer.Upgrade(&sliceLex{toks: L}, el...)
+		var v *c15PRoot
+		var perr error
+		pn, pv, _ := mon.Guard(func() { v, perr = p.ParseFromLexer(pl, participle.AllowTrailing(true)) })
+		switch {
+		case pn:
+			c.Violation("", key, "ParseFromLexer on a Parseable root panicked: "+pv, nil)
+		case perr != nil:
+			c.Violation("", key, fmt.Sprintf("Parseable root failed on valid input %q: %v", text, perr), nil)
+		default:
+			if strings.Join(v.Items, " ") != strings.Join(items, " ") {
+				c.Violation("", key, fmt.Sprintf("Parseable root captured %v, expected %v", v.Items, items), nil)
+			}
+			want := "<EOF>"
+			if len(rest) > 0 {
+				want = rest[0]
+			}
+			if got := pl.Peek().String(); got != want {
+				c.Violation("", key, fmt.Sprintf("after ParseFromLexer(AllowTrailing) on a Parseable root the caller's lexer peeks %q, the first unconsumed token is %q | input %q", got, want, text), map[string]interface{}{"input": text})
+			}
+			// the other entry points agree
+			v2, err2 := p.ParseString("", text, participle.AllowTrailing(true))
+			if err2 != nil || strings.Join(v2.Items, " ") != strings.Join(items, " ") {
+				c.Violation("", key, fmt.Sprintf("ParseString on a Parseable root disagrees with ParseFromLexer: %v %v", v2, err2), nil)
+			}
+		}
+		c.Feature("parseable_root_lexer_position_checked")
+		if len(rest) > 0 {
+			c.Nontrivial("proot:" + text)
+		}
+		c.End(key)
+	}
+}
+
 func c15Child(c *mon.Child) {
+	if c.Batch == 0 {
+		c15ParseableRoot(c)
+	}
 	nInputs := c.N(60, 150)
 	for gi, h := range gram.Registry {
 		g, err := gram.ParseGrammar(h.IR)
 		if err != nil {
 			continue
 		}
-		mapped := gi%4 == 3
+		mapped := gi%5 == 4
 		rec := &recorder{}
 		raw := gram.ProfileDef(g.Profile)
 		opts := []participle.Option{participle.Lexer(wrapDef(raw, rec)), participle.UseLookahead([]int{1, 2, participle.MaxLookahead}[gi%3])}
@@ -395,7 +487,7 @@ func init() {
 		Assumptions: []string{"with token mappers the recorder sits below the mapper, so the handed-out-tokens comparison is only made for unmapped parsers; AST/error agreement is checked for all", "generated Go lexers as the parser's lexer are exercised in the C05 check"},
 		Batches:     func(t string) int { return pick(t, 4, 16) },
 		Floor:       func(t string) int { return pick(t, 1500, 20000) },
-		TimeoutSec:  func(t string) int { return pick(t, 900, 3600) },
+		TimeoutSec:  func(t string) int { return pick(t, 300, 3600) },
 		Prepare:     gramPrepare("C15", func(t string) int { return pick(t, 80, 200) }, c15Opts, nil, false),
 		Child:       c15Child,
 	})
